@@ -130,7 +130,11 @@ class _EventQueue:
         return len(self._queue) + len(self._priority_queue)
 
     def drainFrom(self, other_queue):
-        self._queue.extend(other_queue._queue)
+        # Re-number the adopted entries: the counters of another queue are
+        # unrelated to ours and would break the FIFO tie-break in the heap.
+        for priority, _, item in other_queue._queue:
+            self._counter += 1
+            self._queue.append((priority, self._counter, item))
         other_queue._queue.clear()
         # Queue is currently flushing events /o\
         assert not len(other_queue._priority_queue)
